@@ -393,6 +393,9 @@ EXTRA = [  # positions whose content needs its parentheses; nested multi-line do
     "if a:\n    '''d\n    \n    e'''\n    \n    x = 1\n  \n    y = 2\n\t\nz = 3",
     # flags that are recomputed from the layout: AnnAssign.simple depends on the target's parentheses
     "(x): int = 1\n(y): str\nz: int = 2\na.b: int\n(c[0]): int = 3\n((d)): e",
+    # strings spanning several lines inside decorators / defaults / bases of definitions written on one line, in an indented block
+    'class K:\n    @reg("""usage:\n    prog""")\n    def run(self): pass\n\n    @reg(\'a \\\n    b\')\n    class In(B("""x\n      y""")): pass\n'
+    '    def dflt(self, h="""p\n    q"""): return h',
 ]
 PROGS8 = list(PROGRAMS) + EXTRA
 for _p in EXTRA:
